@@ -87,7 +87,9 @@ CaseNonTrivial(c) == c.obs.token /\ (c.in.reserved # <<>> \/ Len(c.in.pub) > 1 \
 (* --------------------------- concurrent runs --------------------------- *)
 
 NV == Len(plan.versions)
-V(i) == Ver(plan.versions[i])
+(* (index 0: what a swap installed is none of the plan's versions) *)
+V(i) == IF i \in 1..NV THEN Ver(plan.versions[i])
+        ELSE [valid |-> FALSE, kid |-> "", alg |-> "", algs |-> {}, key |-> "", pub |-> {}]
 
 (* free-running mode: version i may have been active at some instant of    *)
 (* [s, e] unless it was not yet written at e, or a later valid version was *)
@@ -170,7 +172,9 @@ Next ==
             /\ UNCHANGED <<div, nontrivial, pl, wr, qlo, qhi, slo, shi>>
        [] e.ev = "swap" ->
             /\ shi' = shi + 1
-            /\ UNCHANGED <<bad, div, nontrivial, pl, wr, qlo, qhi, slo>>
+            \* the signer reports which key it made active: it has to be the one the written store makes active
+            /\ bad' = IF e.ver = 0 THEN bad \cup {Rej(l, e.id, {"activated-key-is-not-the-one-of-the-store"})} ELSE bad
+            /\ UNCHANGED <<div, nontrivial, pl, wr, qlo, qhi, slo>>
        [] e.ev = "token" ->
             LET v == TokenViolations(e) IN
             /\ bad' = IF v = {} THEN bad ELSE bad \cup {Rej(l, e.id, v)}
